@@ -613,6 +613,28 @@ func (e *SpecEnv) evalCall(x *ast.CallExpr) Val {
 			specFail("endOf of non-slice")
 		}
 		return intV(add(v.S.Off, v.S.Len))
+	case "isNest", "asNest":
+		// isNest(d, n) / asNest(d, n): the interface value d holds an n-fold nested []...[]float64 (n a literal 1..4);
+		// asNest is that typed slice value
+		d := arg(0)
+		lit, ok := x.Args[1].(*ast.BasicLit)
+		if !ok || d.K != KRef || d.Sort != "Data" {
+			specFail("%s(d, n) expects an interface value and a literal depth", name)
+		}
+		n, _ := strconv.Atoi(lit.Value)
+		if n < 1 || n > 4 {
+			specFail("%s: depth %s out of range", name, lit.Value)
+		}
+		var t types.Type = types.Typ[types.Float64]
+		for i := 0; i < n; i++ {
+			t = types.NewSlice(t)
+		}
+		e.run.needData()
+		fn := e.run.boxFn(w.sortOf(t), "Data")
+		if name == "isNest" {
+			return boolV(sx("is"+fn, d.T))
+		}
+		return e.run.lenFact(e.st, e.run.fromTerm(sx("un"+fn, d.T), t))
 	case "boxReal":
 		e.run.needData()
 		return Val{K: KRef, T: sx(e.run.boxFn("Real", "Data"), toReal(arg(0))), Sort: "Data"}
